@@ -133,7 +133,8 @@ JudgeRet(e) ==
               (IF keep.smid # "" /\ r.previd = keep.smid THEN <<>> ELSE
                  <<V("C11", "resume-only-with-the-id-last-obtained", IF keep.smid = "" THEN "no-id" ELSE "stale-id", [previd |-> r.previd, have |-> keep.smid, d |-> d])>>) \o
               (IF r.h = keep.inbound THEN <<>> ELSE
-                 <<V("C11", "resume-carries-the-inbound-count", "h", [h |-> r.h, want |-> keep.inbound, d |-> d])>>)
+                 <<V("C11", "resume-carries-the-inbound-count", "h", [h |-> r.h, want |-> keep.inbound, d |-> d]),
+                   V("C09", "resume-h-equals-stanzas-received-on-the-managed-session", "h", [h |-> r.h, want |-> keep.inbound, d |-> d])>>)
     IN [vs |-> v1 \o v2 \o v3 \o v4 \o v5 \o v6 \o v7, c |-> c, k |-> f.k, want |-> want]
 
 T_Ret == /\ Ev("ret")
